@@ -2071,13 +2071,25 @@ ws_session(WsSess &s)
 		raw_drain_nb(s.raw);
 		ws_tx_advance(s);
 		if (!s.rxa->poll()) {
+			// (a thread held up by an injected stall looks idle to sim_quiesce:
+			// let any such stall run out before concluding)
+			sim_sleep_ms(150);
+			sim_quiesce(g_hz);
+			raw_drain_nb(s.raw);
+			ws_tx_advance(s);
+		}
+		bool cancelled = false;
+		if (!s.rxa->poll()) {
 			// the library is idle and the receive is still waiting: nothing more will be delivered
 			nng_aio_cancel(s.rxa->aio);
+			cancelled = true;
 			if (s.rxa->wait(20000 * MS) == (nng_err) -1)
 				VIOL("ws_recv_hang", "cancelled receive did not complete in 20 s %s", ws_ctx(s).c_str());
 		}
 		int rv = s.rxa->result;
 		ws_rx_collect(s);
+		if (rv == NNG_ETIMEDOUT && !cancelled)
+			continue; // an earlier receive ran into its own short time-out (threads may be stalled): ask again
 		if (rv != 0)
 			break; // cancelled (nothing more to come) or the connection is gone
 	}
